@@ -1180,6 +1180,21 @@ func (fe *FnEnc) trCall(x ECall, env *Env) SVal {
 	case "mtimeOf": // modification time last set for a path through os.Chtimes (ghost)
 		v := fe.mat(fe.tr(x.Args[0], env), env)
 		return SVal{T: tSel(fe.getComp(env.state(), "MT", arrSort(sStr, sInt)), v.T), Typ: env.resolveType("time.Time")}
+	case "siteCount": // siteCount(Key, k): how often the k-th call site of Key (in source order of execution) ran during this call
+		key := exprString(x.Args[0])
+		k := exprString(x.Args[1])
+		cn := fmt.Sprintf("SITE.%s#%s", key, k)
+		cur := fe.getComp(env.state(), cn, sInt)
+		old := fe.oldComp(cn, sInt)
+		return SVal{T: tArith("-", cur, old), Typ: types.Typ[types.Int]}
+	case "contains": // contains(s, c): strings.Contains (only what Cut, ToLower and TrimSpace say about it is known)
+		declContains(fe)
+		a := fe.mat(fe.tr(x.Args[0], env), env)
+		b := fe.mat(fe.tr(x.Args[1], env), env)
+		return SVal{T: Term{app("str.contains", a.T, b.T), sBool}, Typ: types.Typ[types.Bool]}
+	case "renamedTo": // renamedTo(path): how often os.Rename(_, path) succeeded (ghost)
+		a := fe.mat(fe.tr(x.Args[0], env), env)
+		return SVal{T: tSel(fe.getComp(env.state(), "RENAMED", arrSort(sStr, sInt)), a.T), Typ: types.Typ[types.Int]}
 	case "wroteCount": // wroteCount(path): how often os.WriteFile(path, ...) succeeded (ghost)
 		a := fe.mat(fe.tr(x.Args[0], env), env)
 		return SVal{T: tSel(fe.getComp(env.state(), "WROTE", arrSort(sStr, sInt)), a.T), Typ: types.Typ[types.Int]}
